@@ -294,6 +294,34 @@ Proof.
   - destruct (best_from_attained (length (nodes g)) c Hc) as [q [Hq S]]. rewrite <- S. apply M. exact Hq.
 Qed.
 
+(* the table-based reference computes the same number as the path enumeration *)
+Lemma fold_max_ext : forall (f f' : node -> Z) l a, (forall c, In c l -> f c = f' c) ->
+  fold_left (fun a c => Z.max a (f c)) l a = fold_left (fun a c => Z.max a (f' c)) l a.
+Proof.
+  induction l as [|y l IH]; intros a H; cbn [fold_left]; [reflexivity|].
+  rewrite (H y (or_introl eq_refl)). apply IH. intros; apply H; right; assumption.
+Qed.
+Lemma relax_rounds_spec : forall k j d,
+  d = map (fun n => (n, best_from j w g n)) (nodes g) ->
+  relax_rounds k w g d = map (fun n => (n, best_from (j + k) w g n)) (nodes g).
+Proof.
+  induction k as [|k IH]; intros j d E; cbn [relax_rounds].
+  - rewrite Nat.add_0_r. exact E.
+  - replace (j + S k)%nat with (S j + k)%nat by lia. apply IH.
+    apply map_ext_in. intros n Hn. f_equal. cbn [best_from]. f_equal.
+    apply fold_max_ext. intros c Hc. rewrite E, lookup_init_w.
+    assert (M : mem c (nodes g) = true) by (apply mem_In; apply (wf_closed g W n c Hc)).
+    rewrite M. reflexivity.
+Qed.
+Lemma best_weight_relax_eq : best_weight_relax w g = best_path_weight w g.
+Proof.
+  unfold best_weight_relax, best_path_weight.
+  change (map (fun n => (n, w n)) (nodes g)) with (map (fun n => (n, best_from 0 w g n)) (nodes g)).
+  rewrite (relax_rounds_spec (length (nodes g)) 0 _ eq_refl). cbn [plus].
+  generalize (best_from (length (nodes g)) w g). intro f. generalize 0.
+  induction (nodes g) as [|y l IH]; intro a; cbn [map fold_left snd]; [reflexivity | apply IH].
+Qed.
+
 Lemma preds_nil : forall x, preds g x = [] <-> forall u, ~ edge g u x.
 Proof.
   intro x. unfold preds. split.
@@ -305,13 +333,16 @@ Proof.
     apply filter_In in Hu. destruct Hu as [_ Hu]. apply edgeb_spec in Hu. exact (H u Hu).
 Qed.
 
-(* the longest-path monitor with the enumeration reference decides the statement of C17_longest_path *)
-Lemma mon_longest_enum_spec : forall p,
-  mon_longest_by true w g p = true <->
+(* the longest-path monitor (either reference) decides the statement of C17_longest_path *)
+Lemma mon_longest_enum_spec : forall enum p,
+  mon_longest_by enum w g p = true <->
   gpath g p /\ (forall u, ~ edge g u (hd 0 p)) /\ (forall v, ~ edge g (last p 0) v) /\
   forall q, gpath g q -> sum_w w q <= sum_w w p.
 Proof.
-  intro p. unfold mon_longest_by. rewrite !andb_true_iff, is_path_spec, Z.eqb_eq. split.
+  intros enum p. unfold mon_longest_by.
+  replace (if enum then best_path_weight w g else best_weight_relax w g) with (best_path_weight w g)
+    by (destruct enum; [reflexivity | symmetry; apply best_weight_relax_eq]).
+  rewrite !andb_true_iff, is_path_spec, Z.eqb_eq. split.
   - intros [[[Hp Hs] Hk] Hm]. split; [exact Hp|]. split; [|split].
     + destruct p as [|x p]; [discriminate|]. cbn [hd]. apply preds_nil. destruct (preds g x); [reflexivity | discriminate].
     + unfold edge. destruct (children_of g (last p 0)); [intros v [] | discriminate].
@@ -400,11 +431,24 @@ Proof.
   apply Z.eqb_eq in H. exists g. split; [reflexivity|]. intros A Hn.
   destruct (topo_acyclic_ok g W A) as [order Ho]. rewrite H. apply (depth_ref_spec g W order Ho n Hn).
 Qed.
-Lemma mon_MLong_enum_spec : forall m wt p, (forall n, 0 <= w_of wt n) -> mon (MLong m wt p true) = true ->
+Lemma mon_MLong_enum_spec : forall m wt p enum, (forall n, 0 <= w_of wt n) -> mon (MLong m wt p enum) = true ->
   exists g, of_mapping m = Ok g /\ (acyclic g ->
     gpath g p /\ (forall u, ~ edge g u (hd 0 p)) /\ (forall v, ~ edge g (last p 0) v) /\
     forall q, gpath g q -> sum_w (w_of wt) q <= sum_w (w_of wt) p).
 Proof.
-  intros m wt p Wnn. cbn [mon]. destruct (of_mapping_wf m) as [g [E W]]. rewrite E. intro H.
-  exists g. split; [reflexivity|]. intro A. apply (mon_longest_enum_spec g W (w_of wt) Wnn A p). exact H.
+  intros m wt p enum Wnn. cbn [mon]. destruct (of_mapping_wf m) as [g [E W]]. rewrite E. intro H.
+  exists g. split; [reflexivity|]. intro A. apply (mon_longest_enum_spec g W (w_of wt) Wnn A enum p). exact H.
+Qed.
+
+(* the critical-path monitor: the reported runtime is the maximum path weight *)
+Lemma mon_MCrit_spec : forall m wt z, (forall n, 0 <= w_of wt n) -> mon (MCrit m wt z) = true ->
+  exists g, of_mapping m = Ok g /\ (acyclic g -> nodes g <> [] ->
+    (exists p, gpath g p /\ sum_w (w_of wt) p = z) /\ forall q, gpath g q -> sum_w (w_of wt) q <= z).
+Proof.
+  intros m wt z Wnn. cbn [mon]. destruct (of_mapping_wf m) as [g [E W]]. rewrite E. intro H.
+  apply Z.eqb_eq in H. exists g. split; [reflexivity|]. intros A NE.
+  rewrite (best_weight_relax_eq g W (w_of wt)) in H. subst z. split.
+  - destruct (longest_path_max g W A NE (w_of wt) Wnn) as [p [_ [Gp M]]]. exists p. split; [exact Gp|].
+    pose proof (best_path_weight_ge g W (w_of wt) A p Gp). pose proof (best_path_weight_le g W (w_of wt) Wnn p Gp M). lia.
+  - apply (best_path_weight_ge g W (w_of wt) A).
 Qed.
